@@ -1010,7 +1010,7 @@ def make_tree(seed, profile='general', max_stmts=30, pop=None):
 
 def make_record(rid, seed, profile='general', max_stmts=30, pop=None, style=None):
     stmts, pop, gen, rng = make_tree(seed, profile, max_stmts, pop)
-    style = style or A.Style(rng, redundant=0.15, brace_atoms=0.1, bracket_calls=0.4)
+    style = style or A.Style(rng, redundant=0.15, brace_atoms=0.1, bracket_calls=0.4, with_in=0.12)
     text = A.unparse(stmts, style)
     extra = ['Nowhere', 'NoGroup', 'NoLoc']
     return {'id': rid, 'seed': seed, 'profile': profile, 'text': text, 'prog': A.flatten(stmts), 'pop': pop,
